@@ -16,7 +16,38 @@ ASSUMPTIONS = ["reference evaluator celmodel/refeval.py implements the semantics
 
 def units(tier, seed):
     n = 16 if tier == 'quick' else 320
-    return [('typed', i) for i in range(n)]
+    return [('typed', i) for i in range(n)] + [('concat', i) for i in range(2 if tier == 'quick' else 16)]
+
+
+def concat_programs(rng):
+    """List / string concatenations between context variables (shared buffers), iteration variables and
+    freshly built operands of every length combination 0-4."""
+    from celmodel.values import I, S, L
+    items = []
+    for _ in range(120):
+        la, lb = rng.randint(0, 4), rng.randint(0, 4)
+        if rng.random() < 0.6:
+            a = L([I(rng.randint(0, 9)) for _ in range(la)])
+            b = L([I(rng.randint(10, 19)) for _ in range(lb)])
+            fresh = lambda v: ('list', [('lit', x) for x in v[1]])
+            wrap = lambda e: ('macro', 'map', e, 'q', [('id', 'q')])
+        else:
+            a = S(''.join(rng.choice('abé') for _ in range(la)))
+            b = S(''.join(rng.choice('xy𝄞') for _ in range(lb)))
+            fresh = lambda v: ('lit', v)
+            wrap = lambda e: ('bin', '+', e, ('lit', S('')))
+        A, Bv = ('id', 'a'), ('id', 'b')
+        forms = [('bin', '+', A, Bv), ('bin', '+', Bv, A), ('bin', '+', A, fresh(b)), ('bin', '+', fresh(a), Bv), ('bin', '+', fresh(a), fresh(b)),
+                 ('bin', '+', A, wrap(Bv)), ('bin', '+', wrap(A), Bv), ('bin', '+', ('bin', '+', A, fresh(b)), A), ('bin', '+', A, ('bin', '+', fresh(b), A)),
+                 ('bin', '+', A, A), ('bin', '==', ('bin', '+', A, fresh(b)), ('bin', '+', fresh(a), Bv)),
+                 ('call', 'size', [('bin', '+', A, fresh(b))])]
+        if a[0] == 'l':
+            forms += [('macro', 'map', ('list', [A, Bv]), 'r', [('bin', '+', ('id', 'r'), fresh(b))]),
+                      ('macro', 'map', ('list', [A]), 'r', [('bin', '+', ('id', 'r'), ('bin', '+', fresh(b), fresh(b)))]),
+                      ('idx', ('bin', '+', A, fresh(b)), ('lit', I(0))), ('bin', 'in', ('lit', I(10)), ('bin', '+', A, fresh(b)))]
+        for e in forms:
+            items.append((e, [("a", a), ("b", b)]))
+    return items
 
 
 def features(e, acc):
@@ -71,8 +102,20 @@ def judge(res, case, rec, outs, complete, e, tag="C03"):
 
 
 def run_unit(unit, drv, res, seed, tier):
-    rng = rng_for(seed, 'C03', unit[1])
+    rng = rng_for(seed, 'C03', *unit)
     cases, meta = [], []
+    if unit[0] == 'concat':
+        for e, ctx in concat_programs(rng):
+            outs, complete = all_outcomes(e, dict(ctx))
+            cases.append(exec_case(len(cases), render_min(e), ctx))
+            meta.append((e, outs, complete, 'min'))
+        out = drv.run(cases, "concat")
+        for c, r, (e, outs, complete, form) in zip(cases, out, meta):
+            res.evaluations += 1
+            judge(res, c, r, outs, complete, e)
+            res.nt(c["src"] + "|" + repr(c.get("vars")))
+            res.count("family:concat")
+        return
     n = 1500
     tries = 0
     while len(cases) < n and tries < n * 4:
